@@ -16,10 +16,10 @@ PLAN = {
     "C18": ["K18a", "K18b", "L18"],
     "C19": ["K19b", "L19"],
     "C11": ["K11a", "K11b"],
-    "C12": ["K12a", "K12b", "K12d"],
-    "C13": ["K13a", "K13b", "K14b"],
+    "C12": ["K12a", "K12b", "K12d", "K12e"],
+    "C13": ["K12a", "K13a", "K13b", "K14b"],
     "C14": ["K14a", "K14b"],
-    "C15": ["K14b", "L15"],
+    "C15": ["K12e", "K14b", "L15"],
     "C16": ["K16"],
     "C20": ["K20a", "K20b"],
 }
